@@ -21,6 +21,19 @@ def P(rng, shape, names=None, kind=None, view=True):
     return s
 
 
+def twin(rng, s, shape):
+    """an operand over the same names and the same exponent rows as `s`, stored in another row order, with its own
+    coefficients (what numpoly.monomial(...) next to an arithmetic result looks like)"""
+    size = int(numpy.prod(shape, dtype=int))
+    rows = [list(t[0]) for t in s["terms"]]
+    order = [int(x) for x in rng.permutation(len(rows))]
+    if len(rows) >= 2 and order == list(range(len(rows))):
+        order = order[::-1]
+    t = dict(s, shape=list(shape), terms=[[rows[k], [int(rng.integers(-3, 4)) for _ in range(size)]] for k in order])
+    t["as"] = "poly"
+    return t
+
+
 def index_arrays(structs):
     """1-based global indices into the concatenated operand space, one array per operand"""
     out, off = [], 0
@@ -79,7 +92,8 @@ def functions():
         k = int(r.integers(1, 4))
         if r.random() < .2:     # the axis argument left out: numpy then repeats the flattened array
             return [P(r, sh)], lambda a: numpoly.repeat(a, k), lambda i: numpy.repeat(i, k), {"repeats": k, "axis": "omitted"}
-        return [P(r, sh)], lambda a: numpoly.repeat(a, k, axis=ax), lambda i: numpy.repeat(i, k, axis=ax), {"repeats": k, "axis": ax}
+        M = numpy if r.random() < .4 else numpoly
+        return [P(r, sh)], lambda a: M.repeat(a, k, axis=ax), lambda i: numpy.repeat(i, k, axis=ax), {"repeats": k, "axis": ax, "how": M.__name__}
     one("repeat", repeat)
 
     def tile(r):
@@ -97,14 +111,24 @@ def functions():
             else:
                 ax = None
             ops = []
+            twins = r.random() < .25
             for _ in range(k):
                 s2 = list(sh)
                 if name == "concatenate" and sh:
                     s2[ax] = int(r.integers(1, 3))
-                ops.append(P(r, tuple(s2), names=gen.gen_names(r, 1, 3)))
+                if twins and ops and ops[0]["kind"] == "int":
+                    ops.append(twin(r, ops[0], tuple(s2)))
+                else:
+                    ops.append(P(r, tuple(s2), names=gen.gen_names(r, 1, 3), kind="int" if twins else None))
+            # either spelling: numpoly.<name> or numpy.<name> (dispatch through __array_function__)
+            M = numpy if r.random() < .35 else numpoly
+            how = M.__name__
             if ax is None:
-                return ops, lambda *a: getattr(numpoly, name)(list(a)), lambda *i: getattr(numpy, name)(list(i)), {"operands": k}
-            return ops, lambda *a: getattr(numpoly, name)(list(a), axis=ax), lambda *i: getattr(numpy, name)(list(i), axis=ax), {"operands": k, "axis": ax}
+                return ops, lambda *a: getattr(M, name)(list(a)), lambda *i: getattr(numpy, name)(list(i)), {"operands": k, "how": how}
+            if name == "concatenate" and r.random() < .2:
+                # axis=None (passed explicitly): the operands are flattened first
+                return ops, lambda *a: getattr(M, name)(list(a), axis=None), lambda *i: numpy.concatenate(list(i), axis=None), {"operands": k, "axis": "None", "how": how}
+            return ops, lambda *a: getattr(M, name)(list(a), axis=ax), lambda *i: getattr(numpy, name)(list(i), axis=ax), {"operands": k, "axis": ax, "how": how}
         return mk
     one("concatenate", join("concatenate", 1))
     one("stack", join("stack", 0))
@@ -162,8 +186,10 @@ def functions():
         common = numpy.broadcast_shapes(sa, sb)
         cshape = gen.sub_shape(r, common)
         cond = (r.random(cshape) < .5)
-        return [P(r, sa, names=gen.gen_names(r, 1, 2)), P(r, sb, names=gen.gen_names(r, 1, 2))], \
-            lambda a, b: numpoly.where(cond, a, b), lambda i, j: numpy.where(cond, i, j), {"condition": cond.tolist()}
+        a = P(r, sa, names=gen.gen_names(r, 1, 2), kind="int")
+        b = twin(r, a, sb) if r.random() < .35 else P(r, sb, names=gen.gen_names(r, 1, 2), kind="int")
+        M = numpy if r.random() < .3 else numpoly
+        return [a, b], lambda a, b: M.where(cond, a, b), lambda i, j: numpy.where(cond, i, j), {"condition": cond.tolist(), "how": M.__name__}
     one("where", where)
 
     def choose(r):
